@@ -4,7 +4,7 @@
 # output: /verif/seeded/<PROP>-<k>/{patch.diff,demo.py,meta.json}  (kept only if confirmed)
 set -u
 P="$1"; K="$2"; shift 2
-src="/tmp/agent_out/$P"
+src="${SRC_ROOT:-/tmp/agent_out}/$P"
 wt="/tmp/valida-seed-$$"
 git -C /repo worktree add -q --detach "$wt" HEAD || exit 2
 trap 'git -C /repo worktree remove --force "$wt" >/dev/null 2>&1; rm -rf "$wt"' EXIT
@@ -27,7 +27,7 @@ for c in "$P" "$@"; do
   results="$results $c:exit=$rc"
 done
 if [ "$confirmed" = yes ]; then
-  d="/verif/seeded/$P-$K"; mkdir -p "$d"
+  d="/verif/seeded/$P-$((K + ${KOFF:-0}))"; mkdir -p "$d"
   cp "$src/patch_$K.diff" "$d/patch.diff"; cp "$src/demo_$K.py" "$d/demo.py"
   /venv/bin/python - "$src/meta_$K.json" "$d/meta.json" "$tests" "$clean_demo" "$mut_demo" "$results" "${TIER:-quick}" <<'PY'
 import json,sys
